@@ -808,12 +808,23 @@ func TestC19Encode(t *testing.T) {
 		e := e
 		t.Run(e.name, func(t *testing.T) {
 			q, th := quickCount(e)
+			nontrivialSeen := 0
+			defer func() {
+				if nontrivialSeen == 0 && !t.Failed() {
+					// starvation is not a violation: report the type as undecided
+					ev.Note("INCONCLUSIVE: no non-trivial value of %s was generated", e.name)
+					t.Skipf("no non-trivial value of %s was generated", e.name)
+				}
+			}()
 			ev.Check(t, q, th, func(rt *rapid.T) {
 				// Generators only assemble values (struct literals, option
 				// functions); every library call that computes anything is
 				// made, guarded, inside e.check.
 				v := e.draw(rt)
 				nt, cl := e.classes(v)
+				if nt {
+					nontrivialSeen++
+				}
 				ev.Case(nt, e.render(v), cl...)
 				e.check(rt, v)
 			})
